@@ -24,6 +24,8 @@
 From CR Require Import Model.Dialer.
 From CR Require Import Model.DialerSpec.
 From CR Require Import Proofs.DialerC11.
+(* behind the lookup seam: the Dialer finds its interface by name at every (re-)dial (extracted) *)
+From CR Require Properties.SeamLookup.
 Local Open Scope Z_scope.
 
 Theorem C11_monitor_accepts : forall sc, real_script sc ->
